@@ -147,6 +147,14 @@ def make_active_cfg(seed, i):
     elif fam == "reg":
         cfg["reg"] = dict(type=gen.pick(rng, ["l1", "l2"]), lam=float(10.0 ** rng.uniform(-2, 0)))
         args["maxfun"] = 40
+    if r() < 0.12:
+        # the run ends while x0 is still being evaluated: warm start below abs_tol, or the budget expiring inside the x0 sampling loop
+        if r() < 0.5:
+            up["model.abs_tol"] = 1e12
+        else:
+            cfg["nsamples"] = dict(kind="const", v=int(rng.integers(2, 5)))
+            args["maxfun"] = int(rng.integers(1, 3))
+            spec["trap"] = False
     cfg["_family"] = fam
     return cfg
 
